@@ -502,7 +502,8 @@ def r_hook_tables(ctx):
                         done |= cs0
                 if set(pc) - {"next", "continue"} or done != {1}:
                     msg = "per pair of samples the block tables are extended %s times depending on the path (expected once on every path)" % sorted(done)
-        ctx.ob("R-ALIGN", key, msg is None, "per pair of samples every block table receives exactly one cell in the row of the first sample" if msg is None else msg, loc(fn, fn))
+        ctx.ob_or_program(("hooktable", c.name), "R-ALIGN", key, msg is None,
+                          "per pair of samples every block table receives exactly one cell in the row of the first sample" if msg is None else msg, loc(fn, fn))
     ctx.count("hooks filling their own tables", n)
     return n
 
@@ -536,10 +537,10 @@ def run(ctx):
     r_condition_names(ctx)
     r_nameunique(ctx)
     r_align(ctx)
-    r_hook_tables(ctx)
     from . import hookprog
     nt = hookprog.r_hook_tables(ctx)   # the hooks unrolled: a column per recorded sample, a Constraint object of its own in every cell
     ctx.floor("tables of multipliers examined", nt, 30)
+    r_hook_tables(ctx)           # the structural reading of a hook that fills its own tables; gives way to the unrolled hook
     r_name(ctx)
     n = r_tabletype(ctx)
     r_bypass(ctx)
